@@ -12,7 +12,9 @@ from typing import Dict, List, Optional, Tuple
 from ..core import AnalysisError, Loc, Report, Source, norm
 from ..ivcong import (AVal, EntryInterpreter, Undecided, congruent_to_x, within)
 from ..guards import atoms, path_conditions
-from ..normalize import flat
+from ..normalize import canon, flat
+from ..pyfront import Program
+from ..resolve import Resolver
 from ..selftest import Edit
 
 ID = "C15"
@@ -37,6 +39,11 @@ def _strip_tuple_gen(e: ast.AST) -> Tuple[ast.AST, Optional[str], Optional[ast.A
                 and isinstance(a.generators[0].target, ast.Name):
             return a.elt, a.generators[0].target.id, a.generators[0].iter
         return ast.Name(id="@elt", ctx=ast.Load()), "@elt", a
+    # (x,) * n  /  n * (x,)  /  [x] * n : n copies of x
+    if isinstance(e, ast.BinOp) and isinstance(e.op, ast.Mult):
+        for seq in (e.left, e.right):
+            if isinstance(seq, (ast.Tuple, ast.List)) and len(seq.elts) == 1:
+                return seq.elts[0], "@rep", None
     return e, None, None
 
 
@@ -161,7 +168,7 @@ def analyse(src: Source) -> List[Report]:
             v = stmt.value
             if isinstance(v, ast.Constant) and v.value is None:
                 continue
-            elt, var, it = _strip_tuple_gen(v)
+            elt, var, it = _strip_tuple_gen(Resolver(fn).res(v))
             shape = "vector" if var is not None else "scalar"
             # a length is taken over unchanged from a parameter; anything computed is a derived (half-length) global
             name_kind.setdefault(name, ("L" if isinstance(elt, ast.Name) else "H", shape))
@@ -185,8 +192,9 @@ def analyse(src: Source) -> List[Report]:
                        f"written together")
                 continue
             (ln, (lalias, lst)), (hn, (halias, hst)) = ls[0], hs[0]
-            lelt, lvar, liter = _strip_tuple_gen(lst.value)
-            helt, hvar, hiter = _strip_tuple_gen(hst.value)
+            RF = Resolver(fn)
+            lelt, lvar, liter = _strip_tuple_gen(RF.res(lst.value))
+            helt, hvar, hiter = _strip_tuple_gen(RF.res(hst.value))
             half = _half_of(helt)
             ok = half is not None
             if ok:
@@ -225,8 +233,11 @@ def analyse(src: Source) -> List[Report]:
         raise AnalysisError(f"expected the cubic and the cuboid PeriodicBoundaries classes, found {len(classes)}")
 
     summaries: Dict[str, Dict[str, str]] = {}
+    prog = Program(src)
     for f, cls in classes:
-        methods = {m.name: m for m in cls.body if isinstance(m, ast.FunctionDef)}
+        ci = next((c for c in prog.classes_in(f) if c.name == cls.name), None)
+        # canonical forms: private / static helpers of the class hierarchy inlined, locals propagated
+        methods = {m.name: (canon(prog, ci, m) if ci is not None else m) for m in cls.body if isinstance(m, ast.FunctionDef)}
         summaries[cls.name] = {}
 
         def resolve_symbol(e: ast.AST):
